@@ -80,7 +80,7 @@ def evKind : Ev → String
   | .read _ _ => "read" | .readErr _ i => if i then "readEINTR" else "read!" | .write _ _ => "write"
   | .writeErr _ i => if i then "writeEINTR" else "write!" | .fsync _ ok => if ok then "fsync" else "fsync!"
   | .openIntd ok => if ok then "openIntd" else "openIntd!" | .linkTodo ok => if ok then "linkTodo" else "linkTodo!"
-  | .ftrunc _ _ => "ftrunc" | .unlinkF _ ok => if ok then "unlinkF" else "unlinkF!" | .trigOpen ok => if ok then "trigOpen" else "trigOpen!"
+  | .ftrunc _ ok => (if ok then "ftrunc" else "ftrunc!") | .unlinkF _ ok => if ok then "unlinkF" else "unlinkF!" | .trigOpen ok => if ok then "trigOpen" else "trigOpen!"
   | .trigWrite => "trigWrite" | .trigClose => "trigClose" | .exit c => s!"exit{c}"
 
 def hash16 (b : Bytes) : String :=
@@ -145,6 +145,10 @@ def handle (d : DState) (line : String) : IO DState := do
                           nontrivial := d.st.nontrivial + (if fresh then 1 else 0) }
     if fresh && st.samples < 3 && m.length < 40 then IO.println s!"SAMPLE {hl}"
     let st := if fresh && st.samples < 3 && m.length < 40 then { st with samples := st.samples + 1 } else st
+    -- input distribution of the fault space: faulted runs of inputs that fail by themselves, runs with several faults
+    let faulted := !flt.startsWith "0:"
+    let st := if faulted && (scanDoc e).1 != .done then st.bump "faulted_malformed_input" else st
+    let st := if flt.contains '+' then st.bump "multi_fault" else st
     return { d with st := st, cur := { p := { msg := m, env := e, received := r, hdr := hdr }, hdrline := hl, pid := pid,
                                         fault := !flt.startsWith "0:" }, bad := false }
   | "T" :: _ =>
